@@ -123,3 +123,22 @@ Example C09_example :
   map (fun d => get (lit "k") d) (t_rows (s_emit s)) =
   [Some (VStr (lit "b")); Some (VStr (lit "d")); Some (VStr (lit "a")); Some (VStr (lit "c"))].
 Proof. vm_compute. reflexivity. Qed.
+
+(** KF-46 - "`sort` outputs exactly the rows it received" holds for their FIELDS ([C09_permutation]
+    and its neighbours above) and is FALSE for the text of the line: the sorter keeps the field maps, and a stage that
+    reads the line after it ([parse] without [from]) sees the empty string.  The model transcribes the
+    implementation here, so the witness is the finding: the same two stages give two rows with the sort last
+    and none with the sort in between. *)
+Theorem C09_sort_forgets_the_line_refuted :
+  exists lines p1 p2 key,
+    let all := fun _ : str => true in
+    (exists t, out (run_pipeline all [p1; p2; SSort [key] true] lines) = Ok (OTable t) /\ length (t_rows t) = 2%nat) /\
+    (exists t, out (run_pipeline all [p1; SSort [key] true; p2] lines) = Ok (OTable t) /\ t_rows t = []).
+Proof.
+  exists [lit "id=1 user=bob"; lit "id=2 user=amy"],
+         (SParse (lit "id=* ") [lit "id"] None false false),
+         (SParse (lit "user=*") [lit "user"] None false false),
+         (ECol (lit "id") []).
+  cbv zeta. split; eexists; split; vm_compute; reflexivity.
+Qed.
+Print Assumptions C09_sort_forgets_the_line_refuted.
